@@ -1,21 +1,39 @@
 /-
   C02 — the application sees exactly the request the client sent.
 
-  Statements only; the proofs are in `Mhd.Proofs.Scanner`, `Mhd.Proofs.ReqLine`,
-  `Mhd.Proofs.ReqField`.  The models are `Mhd.Model.ReqLine` (get_request_line_inner),
-  `Mhd.Model.ReqField` (get_req_header / get_req_headers incl. the shift-back block);
-  every strictness flag comes from the regenerated `Mhd.Gen.Discipline`.
+  Statements only; the proofs are in `Mhd.Proofs.Scanner`, `Mhd.Proofs.ReqLine` (+ `ReqLinePost`),
+  `Mhd.Proofs.ReqField`, `ReqStable`, `ReqRoundtrip`, `ReqLineRoundtrip` (+ `NC`), `ReqTarget`
+  (+ `RT`, `NC`, `Enc`), `ReqCookie`.  The models are `Mhd.Model.ReqLine` (get_request_line_inner),
+  `Mhd.Model.ReqTarget` (get_request_line, process_request_target, MHD_parse_arguments_,
+  MHD_unescape_plus, the strict / lenient in-place percent decoders), `Mhd.Model.ReqField`
+  (get_req_header / get_req_headers incl. the shift-back block), `Mhd.Model.ReqCookie`
+  (parse_cookies_string, parse_cookie_header); every strictness flag comes from the
+  regenerated `Mhd.Gen.Discipline`.
+
+  Sections: (1) fault freedom of the incremental scanners, (2) split independence, (4) stability
+  of the strings, (3) round trips of request line and field lines, (5) target / argument
+  decoding: fault freedom, exactness, decode ∘ render = id, (6) what the line parser hands over
+  and fault freedom of `get_request_line` as a whole, (7) cookies, (8) the look-up API.
 
   All theorems quantify over every strictness level (in fact over every combination of
-  flags), every initial buffer content, every position of the read buffer in the arena
-  and every segmentation of the input (lists of chunks of any length, including empty
-  chunks); there is no bound on any size.
+  flags) unless they say "level ≥ 0", every initial buffer content, every position of the read
+  buffer in the arena and every segmentation of the input (lists of chunks of any length,
+  including empty chunks); there is no bound on any size.
 -/
 import Mhd.Proofs.ReqLine
 import Mhd.Proofs.ReqField
 import Mhd.Proofs.ReqStable
 import Mhd.Proofs.ReqRoundtrip
 import Mhd.Proofs.ReqLineRoundtrip
+import Mhd.Proofs.ReqLineRoundtripNC
+import Mhd.Proofs.ReqTargetRT
+import Mhd.Proofs.ReqTargetNC
+import Mhd.Proofs.ReqTargetEnc
+import Mhd.Proofs.ReqTargetAfter
+import Mhd.Proofs.ReqLineRoundtripBlk
+import Mhd.Proofs.ReqLinePost
+import Mhd.Proofs.ReqCookie
+import Mhd.Proofs.ReqLookup
 
 namespace Mhd.C02
 open Mhd.Req
@@ -43,7 +61,7 @@ theorem reqline_no_fault_flags (F : RLFlags) (s : RL) (hs : RLInv s) (chunks : L
 /-- `get_req_headers` (field lines, folding, in-place termination, element list and the
     shift-back block at the end of the header section) never faults: for every level, every
     state satisfying the representation invariant `HSP.Inv` (which holds after any processed
-    request line, see `field_inv_after_line`) and every segmentation. -/
+    request line, see `field_inv_start`) and every segmentation. -/
 theorem field_no_fault (lvl : Int) (fieldStart : Nat) (s : HS) (hs : HSP.Inv s) (chunks : List Bytes) (f : Fault) :
     let sc := hsScanner (FLFlags.ofLevel lvl) fieldStart
     sc.feedAll (sc.run s) chunks ≠ .fault f := by
@@ -147,12 +165,16 @@ theorem strings_stable (lvl : Int) (fieldStart : Nat) (s : HS) (hs : HSP.Inv s) 
     (`method SP target SP version CRLF`) at every level ≥ 0;
   * `fields_roundtrip_partial` — the header section in its canonical rendering
     (`name ": " value CRLF`) at **every** level, any number of fields.
+  * `reqline_roundtrip_nc_partial`, `reqline_target_roundtrip_partial` (section 5) — the request
+    line in **every** rendering admitted at levels ≥ 0 (leading empty lines, HT separator, bare
+    LF) with percent/plus decoding of the target in every admissible encoding;
+  * `reqline_target_roundtrip_all_levels_partial` — the same at **every** level, with whitespace
+    blocks (SP / HT / VT / FF) as separators at levels < 0.
   Missing for the full statement (carried by the correspondence run only — bounded-exhaustive
   white-box differential + the daemon engine with rendered requests and the semantic oracle):
-  levels < 0 for the request line (merged whitespace blocks); the non-canonical renderings
-  (HT / multiple separators, bare LF, leading empty lines, optional whitespace around field
-  values, folding, bare CR / NUL replacement); percent/plus decoding of target and arguments;
-  cookies. -/
+  for the request line at levels < 0 the renderings with whitespace inside the URI and with a
+  bare CR (kept / replaced by a space); for field lines the non-canonical renderings (optional whitespace
+  around field values, folding, bare CR / NUL replacement, bare LF); cookie exactness. -/
 
 /-- a request-line token character: not CR, LF, SP, HT, VT, FF, NUL -/
 abbrev TokenChar := RLP.rplain
@@ -210,6 +232,311 @@ theorem fields_roundtrip_partial (lvl : Int) (fieldStart : Nat) (fields : List H
   obtain ⟨h, h1, h2, h3, h4, _⟩ := hx
   exact ⟨h, by rw [Scanner.feedAll_flatten (HSP.hsLaws _ fieldStart) chunks s hs]; exact h1, h2, h3, h4⟩
 
+
+/-! ## (5) request target and arguments: `process_request_target`, `MHD_parse_arguments_`,
+   `MHD_unescape_plus`, the strict / lenient in-place percent decoders
+
+  The reference decoding of a raw request target `t` (a byte string) is
+  * path  = the bytes before the first '?' (all of `t` if there is none), percent-decoded;
+  * query = the bytes after the first '?', split at every '&' (a trailing '&' adds nothing,
+    an empty segment is an argument with empty name and no value); each segment split at
+    its first '=' into name and value (no '=': the argument has **no value**); name and value
+    '+' → space first, then percent-decoded.
+  Percent-decoding is `TGT.decS` (strict: `%` must be followed by two hex digits, otherwise the
+  string is truncated to the empty string, as `MHD_str_pct_decode_in_place_strict_` documents)
+  at levels ≥ 0 and `TGT.decL` (lenient: a `%` that does not start a valid escape stands for
+  itself) below; the theorems hold for either decoder with any flag (`strict : Bool`). -/
+
+/-- reference: the decoded path of a raw request target -/
+abbrev refPath (strict : Bool) (t : List UInt8) : List UInt8 := TGT.decView strict (TGT.pathOf t)
+
+/-- reference: the (name, value-or-none) list of a raw request target -/
+abbrev refArgs (strict : Bool) (t : List UInt8) : List (List UInt8 × Option (List UInt8)) :=
+  TGT.specArgs (TGT.argView strict) (TGT.queryOf t)
+
+/-- **`MHD_parse_arguments_` never faults** and never writes outside the string: for every
+    buffer with a NUL at some index `hi ≥ args` — nothing else is assumed about the bytes
+    (stray or truncated escapes, any number of '&' / '=') — every decoder, every element list
+    so far.  The buffer keeps its size, bytes outside `[args, hi]` are unchanged, the new
+    elements have the requested kind and their strings lie inside `[args, hi)`. -/
+theorem args_no_fault (strict : Bool) (kind : Nat) (buf : Bytes) (args hi : Nat) (acc : List Elem) (fuel : Nat)
+    (h1 : args ≤ hi) (h2 : hi < buf.size) (h0 : buf[hi]? = some 0) (hf : hi - args < fuel) :
+    ∃ buf' els, parseArgs strict kind fuel buf args acc = .ok (buf', acc ++ els) ∧ buf'.size = buf.size ∧
+      (∀ j, j < args ∨ hi < j → buf'[j]? = buf[j]?) ∧ ∀ el ∈ els, HSP.ElemIn el args hi ∧ el.kind = kind :=
+  TGT.parseArgs_no_fault strict kind buf args hi acc h1 h2 h0 fuel hf
+
+/-- **`process_request_target` never faults** and never writes outside the target: for every
+    request-line record whose target `[tgt, tgt + tgtLen)` is followed by a NUL inside the
+    buffer and whose recorded '?' position (if any) lies inside the target.  Nothing is
+    assumed about the bytes of the target (interior NUL, stray '%', …).  All strings handed
+    to the application (decoded URL, argument names and values) lie inside the target, hence
+    below the version string. -/
+theorem target_no_fault (strict : Bool) (r : ReqLine) (hlen : r.tgt + r.tgtLen < r.buf.size)
+    (hnul : r.buf[r.tgt + r.tgtLen]? = some 0)
+    (hq : ∀ q, r.qmark = some q → r.tgt ≤ q ∧ q < r.tgt + r.tgtLen) :
+    ∃ T, processRequestTarget strict r = .ok T ∧ T.buf.size = r.buf.size ∧
+      (∀ j, j < r.tgt ∨ r.tgt + r.tgtLen < j → T.buf[j]? = r.buf[j]?) ∧ T.url = r.tgt ∧ T.urlLen ≤ r.tgtLen ∧
+      (∀ el ∈ T.elems, HSP.ElemIn el r.tgt (r.tgt + r.tgtLen) ∧ el.kind = Mhd.Gen.Http.kindGetArgument) ∧
+      T.rb = r.rb ∧ T.method = r.method ∧ T.version = r.version :=
+  TGT.processRequestTarget_no_fault strict r hlen hnul hq
+
+/-- **Exact decoding of every request target.**  For every request-line record whose target
+    is the C string `t` (no interior NUL — the line parser refuses NUL — with the first '?'
+    recorded, `TGT.TargetWF`): the URI logger is shown `t` itself, the URL handed to the
+    application is the reference path, and the argument elements are the reference argument
+    list — in order, with multiplicity, name-only arguments with `value = NULL`. -/
+theorem target_decoding_exact (strict : Bool) (r : ReqLine) (t : List UInt8) (h : TGT.TargetWF r t) :
+    ∃ T, processRequestTarget strict r = .ok T ∧ T.rawTarget = t ∧
+      sliceBytes T.buf ⟨0, T.url, T.urlLen⟩ = refPath strict t ∧
+      T.elems.map (HSP.elemView T.buf) = (refArgs strict t).map (fun kv => (Mhd.Gen.Http.kindGetArgument, kv.1, kv.2)) := by
+  obtain ⟨T, h1, h2, _, h4, _, h6, _⟩ := TGT.processRequestTarget_spec strict r t h
+  exact ⟨T, h1, h2, h4, h6⟩
+
+/-- **decode (render x) = x.**  `TGT.TargetR` is a rendering of a semantic (path, argument
+    list): per byte the choice literal / `%HL` with either hex-digit case / '+' for a space in
+    arguments, and the choice of a trailing '&'.  `TGT.TargetR.ok` (a decidable `Bool`) is the
+    encoder's side condition: literals are request-line characters other than the delimiters
+    of their position ('%', and '?' in the path; '%' '+' '&' '=' in names; '%' '+' '&' in values),
+    non-empty path, trailing '&' present after an empty last argument and absent without
+    arguments.  For every admissible rendering the reference decoding — hence by
+    `target_decoding_exact` the code — gives back exactly the path and the arguments. -/
+theorem target_render_decode (strict : Bool) (R : TGT.TargetR) (h : R.ok = true) :
+    refPath strict R.render = R.semPath ∧ refArgs strict R.render = R.semArgs :=
+  TGT.target_decode_render strict R h
+
+/-- **Every semantic request target has an admissible rendering**: the round trips
+    (`target_render_decode`, `reqline_target_roundtrip_partial`) quantify over renderings; this
+    says they reach every non-empty path and every argument list of arbitrary bytes (NUL, '&',
+    '=', '%', ≥ 0x80 … included; name-only and empty-named arguments included). -/
+theorem every_target_has_rendering (path : List UInt8) (hp : path ≠ []) (args : List (List UInt8 × Option (List UInt8))) :
+    ∃ R : TGT.TargetR, R.ok = true ∧ R.semPath = path ∧ R.semArgs = args :=
+  TGT.exists_rendering path hp args
+
+/-- **Round trip of the request line including target decoding** — level ≥ 0, **every rendering
+    of the request line the level admits**, **any segmentation**, **any admissible rendering `R`
+    of the target**:
+    `els` empty lines first (each `CR LF` or, where admitted, a bare `LF`; their number within the
+    level's limit: `RLP.SkipOK`), separators `w1`, `w2` any byte the level treats as whitespace
+    (SP; HT at level 0), the line end `CR LF` or (level 0) a bare `LF` (`RLP.LineEnd`).
+    `get_request_line` succeeds; the application is given the method, the path `R.semPath`, the
+    arguments `R.semArgs` (in order, with multiplicity, name-only arguments without value) and
+    the version; the URI logger sees the target as sent; exactly the bytes up to the line end are
+    consumed.  Holds for both decoders (`strict` arbitrary, in particular
+    `Mhd.Gen.Discipline.unesc_strict lvl`) and any pool size.
+    Missing for the full statement: levels < 0 (merged whitespace blocks, whitespace kept in
+    the URI, bare CR) — by correspondence only. -/
+theorem reqline_target_roundtrip_partial (lvl : Int) (hl : 0 ≤ lvl) (strict : Bool) (pool : Nat) (buf : Bytes) (rb : Nat)
+    (chunks : List Bytes) (els : List (List UInt8)) (m v eol : List UInt8) (w1 w2 : UInt8) (R : TGT.TargetR) (hv : Int)
+    (hrb : rb ≤ buf.size) (hels : ∀ e ∈ els, RLP.LineEnd (RLFlags.ofLevel lvl) e)
+    (hk : RLP.SkipOK (RLFlags.ofLevel lvl) els.length)
+    (hw1 : rlIsWsp (RLFlags.ofLevel lvl) w1 = true) (hw2 : rlIsWsp (RLFlags.ofLevel lvl) w2 = true)
+    (heol : RLP.LineEnd (RLFlags.ofLevel lvl) eol) (hm0 : m ≠ [])
+    (hm : ∀ c ∈ m, TokenChar c ∧ c ≠ 63) (hR : R.ok = true) (hvl : v.length = 8)
+    (hvc : ∀ c ∈ v, TokenChar c ∧ c ≠ 63) (hpv : parseHttpVersion v = .ok hv)
+    (hbuf : RLP.BufIs (buf ++ Scanner.flatten chunks) rb
+      (els.flatten ++ (m ++ [w1] ++ R.render ++ ([w2] ++ v ++ eol)))) :
+    let sc := rlScanner (RLFlags.ofLevel lvl)
+    ∃ T, getRequestLineOuter (RLFlags.ofLevel lvl) strict pool (sc.feedAll (sc.run (RL.init buf rb)) chunks) = .ok T ∧
+      T.rawTarget = R.render ∧
+      sliceBytes T.buf ⟨0, T.url, T.urlLen⟩ = R.semPath ∧
+      T.elems.map (HSP.elemView T.buf) = R.semArgs.map (fun kv => (Mhd.Gen.Http.kindGetArgument, kv.1, kv.2)) ∧
+      RLP.BufIs T.buf T.method (m ++ [0]) ∧ T.methodLen = m.length ∧ T.mthd = stdMethodOf m ∧
+      RLP.BufIs T.buf T.version (v ++ [0]) ∧ T.httpVer = hv ∧
+      T.rb = rb + els.flatten.length + m.length + R.render.length + 10 + eol.length := by
+  intro sc
+  have hB : (RLFlags.ofLevel lvl).wspBlocks = false := by
+    simp only [RLFlags.ofLevel, Mhd.Gen.Discipline.rl_wsp_blocks, decide_eq_false_iff_not]; omega
+  have hrb' : rb ≤ (buf ++ Scanner.flatten chunks).size := by rw [Array.size_append]; omega
+  rw [reqline_split_independent lvl buf rb hrb chunks]
+  exact TGT.reqline_target_roundtrip_nc (RLFlags.ofLevel lvl) hB strict pool _ rb els m v eol w1 w2 R hv hrb' hels hk
+    hw1 hw2 heol hm0 hm hR hvl hvc hpv hbuf
+
+/-- **Round trip of the request line including target decoding at every level** (−3 … 3 and
+    beyond), any segmentation, any admissible rendering `R` of the target: `els` empty lines
+    (each CRLF or, where admitted, bare LF; number within the level's limit), the separators
+    `ws1`, `ws2` non-empty blocks of bytes the level treats as whitespace (SP; HT at levels ≤ 0;
+    VT, FF at levels ≤ −1) — of length one at levels ≥ 0, where blocks are not merged —, line end
+    CRLF or (levels ≤ 0) bare LF.  `get_request_line` succeeds and the application is given the
+    method, the path, the arguments (in order, with multiplicity, name-only arguments without
+    value) and the version; the URI logger sees the target as sent; exactly the line is consumed.
+    Still missing for the full statement (correspondence only): at levels < 0 the renderings
+    with whitespace *inside* the target (kept at levels ≤ −2) and with a bare CR in the line
+    (treated as a space at −1, −2, kept at −3). -/
+theorem reqline_target_roundtrip_all_levels_partial (lvl : Int) (strict : Bool) (pool : Nat) (buf : Bytes) (rb : Nat)
+    (chunks : List Bytes) (els : List (List UInt8)) (m v eol ws1 ws2 : List UInt8) (R : TGT.TargetR) (hv : Int)
+    (hrb : rb ≤ buf.size) (hels : ∀ e ∈ els, RLP.LineEnd (RLFlags.ofLevel lvl) e)
+    (hk : RLP.SkipOK (RLFlags.ofLevel lvl) els.length)
+    (hws1 : ws1 ≠ [] ∧ ∀ w ∈ ws1, rlIsWsp (RLFlags.ofLevel lvl) w = true)
+    (hws2 : ws2 ≠ [] ∧ ∀ w ∈ ws2, rlIsWsp (RLFlags.ofLevel lvl) w = true)
+    (hsingle : 0 ≤ lvl → ws1.length = 1 ∧ ws2.length = 1)
+    (heol : RLP.LineEnd (RLFlags.ofLevel lvl) eol) (hm0 : m ≠ [])
+    (hm : ∀ c ∈ m, TokenChar c ∧ c ≠ 63) (hR : R.ok = true) (hvl : v.length = 8)
+    (hvc : ∀ c ∈ v, TokenChar c ∧ c ≠ 63) (hpv : parseHttpVersion v = .ok hv)
+    (hbuf : RLP.BufIs (buf ++ Scanner.flatten chunks) rb
+      (els.flatten ++ (m ++ ws1 ++ R.render ++ (ws2 ++ v ++ eol)))) :
+    let sc := rlScanner (RLFlags.ofLevel lvl)
+    ∃ T, getRequestLineOuter (RLFlags.ofLevel lvl) strict pool (sc.feedAll (sc.run (RL.init buf rb)) chunks) = .ok T ∧
+      T.rawTarget = R.render ∧
+      sliceBytes T.buf ⟨0, T.url, T.urlLen⟩ = R.semPath ∧
+      T.elems.map (HSP.elemView T.buf) = R.semArgs.map (fun kv => (Mhd.Gen.Http.kindGetArgument, kv.1, kv.2)) ∧
+      RLP.BufIs T.buf T.method (m ++ [0]) ∧ T.methodLen = m.length ∧ T.mthd = stdMethodOf m ∧
+      RLP.BufIs T.buf T.version (v ++ [0]) ∧ T.httpVer = hv ∧
+      T.rb = rb + els.flatten.length + m.length + ws1.length + R.render.length + ws2.length + 8 + eol.length := by
+  intro sc
+  by_cases hl : 0 ≤ lvl
+  · obtain ⟨l1, l2⟩ := hsingle hl
+    obtain ⟨w1, rfl⟩ := List.length_eq_one_iff.mp l1
+    obtain ⟨w2, rfl⟩ := List.length_eq_one_iff.mp l2
+    obtain ⟨T, h1, h2, h3, h4, h5, h6, h7, h8, h9, h10⟩ := reqline_target_roundtrip_partial lvl hl strict pool buf rb chunks
+      els m v eol w1 w2 R hv hrb hels hk (hws1.2 w1 (by simp)) (hws2.2 w2 (by simp)) heol hm0 hm hR hvl hvc hpv hbuf
+    exact ⟨T, h1, h2, h3, h4, h5, h6, h7, h8, h9, by rw [h10]; simp only [List.length_cons, List.length_nil]; omega⟩
+  · have hB : (RLFlags.ofLevel lvl).wspBlocks = true := by
+      simp only [RLFlags.ofLevel, Mhd.Gen.Discipline.rl_wsp_blocks, decide_eq_true_eq]; omega
+    have hU : (RLFlags.ofLevel lvl).wspInUri = true := by
+      simp only [RLFlags.ofLevel, Mhd.Gen.Discipline.rl_wsp_in_uri, decide_eq_true_eq]; omega
+    have hrb' : rb ≤ (buf ++ Scanner.flatten chunks).size := by rw [Array.size_append]; omega
+    obtain ⟨ht0, ht⟩ := TGT.TargetR.render_bytes hR
+    rw [reqline_split_independent lvl buf rb hrb chunks]
+    obtain ⟨r, hr, ok⟩ := RLP.reqline_roundtrip_blk (RLFlags.ofLevel lvl) hB hU _ rb els m R.render v eol ws1 ws2 hv hrb'
+      hels hk hws1 hws2 heol hm0 ht0 hm ht hvl hvc hpv hbuf
+    have a1 : 1 ≤ ws1.length := by
+      cases ws1 with
+      | nil => exact absurd rfl hws1.1
+      | cons _ _ => simp
+    have a2 : 1 ≤ ws2.length := by
+      cases ws2 with
+      | nil => exact absurd rfl hws2.1
+      | cons _ _ => simp
+    rw [hr]
+    obtain ⟨T, h1, h2, h3, h4, h5, h6, h7, h8, h9, h10⟩ := TGT.target_after_line (RLFlags.ofLevel lvl) strict pool r R m v hR
+      ok.numWs ok.vTgt ok.tgtLen ok.qmark ok.vMethod ok.vVersion (by rw [ok.method, ok.tgt]; omega)
+      (by rw [ok.tgt, ok.version]; omega)
+    exact ⟨T, h1, h2, h3, h4, h5, by rw [h6, ok.methodLen], by rw [h7, ok.mthd], h8, by rw [h9, ok.httpVer],
+      by rw [h10, ok.rb]⟩
+
+/-- the raw request line (no target decoding) in **every rendering admitted at level ≥ 0**
+    (see `reqline_target_roundtrip_partial` for the renderings): the three strings read back
+    NUL-terminated as sent, the first '?' is recorded, `skipped` counts the empty lines. -/
+theorem reqline_roundtrip_nc_partial (lvl : Int) (hl : 0 ≤ lvl) (buf : Bytes) (rb : Nat) (chunks : List Bytes)
+    (els : List (List UInt8)) (m t v eol : List UInt8) (w1 w2 : UInt8) (hv : Int) (hrb : rb ≤ buf.size)
+    (hels : ∀ e ∈ els, RLP.LineEnd (RLFlags.ofLevel lvl) e) (hk : RLP.SkipOK (RLFlags.ofLevel lvl) els.length)
+    (hw1 : rlIsWsp (RLFlags.ofLevel lvl) w1 = true) (hw2 : rlIsWsp (RLFlags.ofLevel lvl) w2 = true)
+    (heol : RLP.LineEnd (RLFlags.ofLevel lvl) eol) (hm0 : m ≠ []) (ht0 : t ≠ [])
+    (hm : ∀ c ∈ m, TokenChar c ∧ c ≠ 63) (ht : ∀ c ∈ t, TokenChar c) (hvl : v.length = 8)
+    (hvc : ∀ c ∈ v, TokenChar c ∧ c ≠ 63) (hpv : parseHttpVersion v = .ok hv)
+    (hbuf : RLP.BufIs (buf ++ Scanner.flatten chunks) rb (els.flatten ++ (m ++ [w1] ++ t ++ ([w2] ++ v ++ eol)))) :
+    let sc := rlScanner (RLFlags.ofLevel lvl)
+    ∃ r, sc.feedAll (sc.run (RL.init buf rb)) chunks = .done (.ok r) ∧
+      RLP.LineNC r (buf ++ Scanner.flatten chunks) (rb + els.flatten.length) m t v hv els.length eol.length := by
+  intro sc
+  have hB : (RLFlags.ofLevel lvl).wspBlocks = false := by
+    simp only [RLFlags.ofLevel, Mhd.Gen.Discipline.rl_wsp_blocks, decide_eq_false_iff_not]; omega
+  have hrb' : rb ≤ (buf ++ Scanner.flatten chunks).size := by rw [Array.size_append]; omega
+  rw [reqline_split_independent lvl buf rb hrb chunks]
+  exact RLP.reqline_roundtrip_nc (RLFlags.ofLevel lvl) hB _ rb els m t v eol w1 w2 hv hrb' hels hk hw1 hw2 heol hm0 ht0
+    hm ht hvl hvc hpv hbuf
+
+/-! ## (6) what the line parser hands over; `get_request_line` as a whole -/
+
+/-- **Every successfully parsed request line is well-shaped** — every combination of flags
+    (hence every level), every buffer, every segmentation, every input: the target
+    `[tgt, tgt + tgtLen)` lies between the method and the version string, is followed by a NUL,
+    the recorded '?' lies inside the target, the version string with its NUL ends before
+    `read_buffer`, which is inside the buffer. -/
+theorem reqline_post (F : RLFlags) (buf : Bytes) (rb : Nat) (h : rb ≤ buf.size) (chunks : List Bytes) (r : ReqLine)
+    (hr : (rlScanner F).feedAll ((rlScanner F).run (RL.init buf rb)) chunks = .done (.ok r)) : RLPost r := by
+  rw [Scanner.feedAll_flatten (rlLaws F) chunks _ (RLInv.init buf rb h)] at hr
+  exact (rl_run_done F ((RLInvX.init F buf rb h).ext _) hr).1
+
+/-- **`get_request_line` never faults** (inner scanner, whitespace check and
+    `process_request_target` with `MHD_parse_arguments_` and the decoders together): every
+    combination of flags, either decoder, every pool size, every buffer, every segmentation,
+    every input. -/
+theorem get_request_line_no_fault (F : RLFlags) (strict : Bool) (pool : Nat) (buf : Bytes) (rb : Nat) (h : rb ≤ buf.size)
+    (chunks : List Bytes) (f : Fault) :
+    getRequestLineOuter F strict pool ((rlScanner F).feedAll ((rlScanner F).run (RL.init buf rb)) chunks) ≠ .fault f := by
+  cases hr : (rlScanner F).feedAll ((rlScanner F).run (RL.init buf rb)) chunks with
+  | more s => simp only [getRequestLineOuter]; split <;> (intro h'; cases h')
+  | fault f' => exact absurd hr (reqline_no_fault_flags F _ (RLInv.init buf rb h) chunks f')
+  | done d =>
+    cases d with
+    | err e => intro h'; cases h'
+    | ok r =>
+      have post := reqline_post F buf rb h chunks r hr
+      have hv : Mhd.Gen.Discipline.httpVerLen = 8 := rfl
+      obtain ⟨T, hT, _⟩ := TGT.processRequestTarget_no_fault strict r
+        (by have := post.htl; have := post.hv; have := post.hrb; omega) post.hnul post.hq
+      simp only [getRequestLineOuter, hT]
+      cases lineWspCheck F pool r <;> (intro h'; cases h')
+
+/-! ## (7) cookies: `parse_cookies_string`, `parse_cookie_header` -/
+
+/-- **`parse_cookies_string` never faults**: every flag combination, every byte array with the
+    end position `n` inside it (nothing assumed about the bytes — quotes, separators,
+    whitespace anywhere, not even the terminating NUL), every start index; the loop terminates
+    within the fuel `parse_cookie_header` gives it, the in-place NUL writes stay inside. -/
+theorem cookie_string_no_fault (F : CKFlags) (n fuel : Nat) (str : Bytes) (i : Nat) (ns : Bool) (acc : List Elem)
+    (hn : n < str.size) (hf : n - i + 1 ≤ fuel) :
+    ∃ out, parseCookiesString F n fuel str i ns acc = .ok out ∧ out.str.size = str.size :=
+  CK.parseCookiesString_no_fault F n fuel str i ns acc hn hf
+
+/-- **`parse_cookie_header` never faults**: every level (every flag combination), every
+    buffer, every element list whose value strings lie inside the buffer (true for every
+    list the field-line parser produces) — whatever the `Cookie` field contains. -/
+theorem cookie_no_fault (F : CKFlags) (buf : Bytes) (elems : List Elem)
+    (h : ∀ e ∈ elems, ∀ v, e.value = some v → v.off + v.len ≤ buf.size) :
+    ∃ c, parseCookieHeader F buf elems = .ok c :=
+  CK.parseCookieHeader_ok_of_inBounds F buf elems h
+
+/-- **Cookies: the application sees exactly the cookies sent** — every level (every flag
+    combination), the canonical rendering `n1=v1; n2=v2; …` with each value optionally in
+    double quotes (`CK.render`; names non-empty without `= SP HT " , ; NUL`, values without
+    `; " , \ SP HT NUL`: `CK.CookieSpec.Valid`): `parse_cookies_string` returns the strict
+    result `ok` and exactly one element per cookie, in order, with multiplicity, kind cookie,
+    whose name and value read back NUL-terminated from the pool copy (an empty value is the
+    static empty string) — `CK.CookiesAre`.
+    Missing for the full statement (correspondence only): the non-canonical renderings admitted
+    at levels ≤ 0 (no space or a tab after ';', empty cookies `;;`, whitespace around '=' and
+    inside quoted values, leading/trailing whitespace), which give `okLax`, and the exact
+    characterisation of the refused strings. -/
+theorem cookies_roundtrip_partial (F : CKFlags) (cs : List CK.CookieSpec) (hval : ∀ c ∈ cs, c.Valid)
+    (fuel : Nat) (hf : (CK.render cs).length + 1 ≤ fuel) :
+    ∃ out, parseCookiesString F (CK.render cs).length fuel (CK.render cs ++ [0]).toArray 0 false [] = .ok out ∧
+      out.res = .ok ∧ out.str.size = (CK.render cs).length + 1 ∧ CK.CookiesAre out.str out.elems cs :=
+  CK.cookies_roundtrip F cs hval fuel hf
+
+/-- the same through `parse_cookie_header`: the first `Cookie` field of the element list
+    holds the rendering; the cookie elements are appended to the list, result `ok` -/
+theorem cookie_header_roundtrip_partial (F : CKFlags) (buf : Bytes) (elems : List Elem) (e : Elem) (v : Slice)
+    (cs : List CK.CookieSpec) (hval : ∀ c ∈ cs, c.Valid)
+    (hl : lookupElem buf elems Mhd.Gen.Http.kindHeader Mhd.Gen.Http.hdrCookieBytes = some e) (hv : e.value = some v)
+    (hr : rdRange buf v.off v.len = some (CK.render cs)) :
+    ∃ cpy els, parseCookieHeader F buf elems = .ok ⟨.ok, cpy, elems ++ els⟩ ∧ CK.CookiesAre cpy els cs :=
+  CK.cookieHeader_roundtrip F buf elems e v cs hval hl hv hr
+
+/-! ## (8) the look-up API: `MHD_lookup_connection_value_n` (and MHD's own look-ups of Cookie …) -/
+
+/-- **The look-up returns the first element whose name is the key — exactly, never a prefix.**
+    `lookupElem` (= `MHD_lookup_connection_value_n` for a non-NULL key) answers `e` iff `e` is
+    of one of the requested kinds, its name has the **same length** as the key and equals it
+    ignoring ASCII case (`NameMatches`), and no earlier element of the list does; it answers
+    "not found" iff no element matches.  (An element whose name merely starts with the key, or
+    of which the key is an extension, is never returned.) -/
+theorem lookup_exact (buf : Bytes) (elems : List Elem) (kind : Nat) (key : List UInt8) :
+    (∀ e, lookupElem buf elems kind key = some e ↔
+      NameMatches buf kind key e ∧ ∃ pre post, elems = pre ++ e :: post ∧ ∀ x ∈ pre, ¬ NameMatches buf kind key x) ∧
+    (lookupElem buf elems kind key = none ↔ ∀ x ∈ elems, ¬ NameMatches buf kind key x) :=
+  ⟨lookupElem_some buf elems kind key, lookupElem_none buf elems kind key⟩
+
+/-- cookies come from a field named exactly `Cookie` only: without such a field (e.g. only
+    `Cookie2: …`) `parse_cookie_header` adds nothing -/
+theorem cookies_only_from_cookie_field (F : CKFlags) (buf : Bytes) (elems : List Elem)
+    (h : ∀ x ∈ elems, ¬ NameMatches buf Mhd.Gen.Http.kindHeader Mhd.Gen.Http.hdrCookieBytes x) :
+    parseCookieHeader F buf elems = .ok ⟨.ok, #[], elems⟩ := by
+  unfold parseCookieHeader
+  rw [(lookupElem_none buf elems _ _).mpr h]
+  rfl
+
 /-! ## non-vacuity: the hypotheses are satisfiable by concrete, non-trivial values
    (byte arrays written out: `decide` evaluates the model in the kernel) -/
 
@@ -262,5 +589,110 @@ example : (∀ c ∈ [71, 69, 84], TokenChar c ∧ c ≠ 63) ∧ (∀ c ∈ [47,
   refine ⟨?_, ?_, by decide⟩
   · intro c hc; simp at hc; rcases hc with rfl | rfl | rfl <;> (unfold TokenChar RLP.rplain; decide)
   · intro c hc; simp at hc; rcases hc with rfl | rfl | rfl | rfl <;> (unfold TokenChar RLP.rplain; decide)
+
+/-- an admissible rendering with every kind of choice: path `/a%20+%C3`, arguments
+    `x=1+%2b=`, `%79` (no value), `=` (empty name, empty value), `` (empty name, no value; needs
+    the trailing '&'):  "/a%20+%C3?x=1+%2b=&%79&=&&" -/
+def exR : TGT.TargetR :=
+  { path := [.lit 47, .lit 97, .esc 2 0 false true, .lit 43, .esc 12 3 true false],
+    query := some ([⟨[.lit 120], some [.lit 49, .plus, .esc 2 11 false false, .lit 61]⟩, ⟨[.esc 7 9 true true], none⟩,
+                    ⟨[], some []⟩, ⟨[], none⟩], true) }
+
+example : exR.ok = true ∧
+    exR.render = [47, 97, 37, 50, 48, 43, 37, 67, 51, 63, 120, 61, 49, 43, 37, 50, 98, 61, 38, 37, 55, 57, 38, 61, 38, 38] ∧
+    exR.semPath = [47, 97, 32, 43, 195] ∧
+    exR.semArgs = [([120], some [49, 32, 43, 61]), ([121], none), ([], some []), ([], none)] := by decide
+
+/-- the whole way on concrete bytes: "GET /a%20+%C3?x=1+%2b=&%79&=&& HTTP/1.1\r\n" in two pieces at
+    level 1 (strict decoder) and level 0 (lenient decoder): decoded URL and arguments as `exR` says
+    (`decide +kernel` evaluates the model: a test of the example, not a proof step) -/
+example : ∀ lvl ∈ [(0 : Int), 1],
+    (match getRequestLineOuter (RLFlags.ofLevel lvl) (Mhd.Gen.Discipline.unesc_strict lvl) 1500
+        ((rlScanner (RLFlags.ofLevel lvl)).feedAll ((rlScanner (RLFlags.ofLevel lvl)).run (RL.init #[] 0))
+          [#[71, 69, 84, 32, 47, 97, 37, 50, 48, 43, 37, 67, 51, 63, 120, 61, 49, 43, 37],
+           #[50, 98, 61, 38, 37, 55, 57, 38, 61, 38, 38, 32, 72, 84, 84, 80, 47, 49, 46, 49, 13, 10]]) with
+     | .ok T => (sliceBytes T.buf ⟨0, T.url, T.urlLen⟩, T.elems.map (HSP.elemView T.buf)) ==
+         (exR.semPath, exR.semArgs.map (fun kv => (Mhd.Gen.Http.kindGetArgument, kv.1, kv.2)))
+     | _ => false) = true := by decide +kernel
+
+/-- a target the hypotheses of `target_no_fault` allow although it is no proper rendering
+    (interior NUL, truncated escape, '?' recorded at the second '?'): no fault, the URL is
+    cut at the NUL -/
+def exOdd : ReqLine :=
+  { buf := #[71, 0, 47, 0, 63, 37, 63, 37, 52, 0, 72, 0], rb := 12, method := 0, methodLen := 1, mthd := 1, tgt := 2,
+    tgtLen := 7, qmark := some 6, version := 10, httpVer := 1, numWs := 0, crSp := 0, skipped := 0 }
+
+example :
+    (match processRequestTarget true exOdd with
+     | .ok T => some (T.urlLen, T.elems.length)
+     | .error _ => none) = some (1, 1) := by decide +kernel
+
+
+/-- the rendering side conditions of `reqline_target_roundtrip_partial` at level 0: one empty line
+    ended by a bare LF, HT as separator, bare LF as line end are admitted (and 1024 empty lines
+    are, 1025 are not); at level 1 only one CRLF empty line, SP, CRLF -/
+example : RLP.LineEnd (RLFlags.ofLevel 0) [cLF] ∧ RLP.SkipOK (RLFlags.ofLevel 0) 1024 ∧ ¬ RLP.SkipOK (RLFlags.ofLevel 0) 1025 ∧
+    rlIsWsp (RLFlags.ofLevel 0) cHT = true ∧ RLP.SkipOK (RLFlags.ofLevel 1) 1 ∧ ¬ RLP.SkipOK (RLFlags.ofLevel 1) 2 ∧
+    rlIsWsp (RLFlags.ofLevel 1) cHT = false ∧ ¬ RLP.LineEnd (RLFlags.ofLevel 1) [cLF] := by decide
+
+/-- a non-canonical line with an encoded target, evaluated: "\nGET\t/a%20b?x=+1\tHTTP/1.0\n" at level 0 -/
+example :
+    (match getRequestLineOuter (RLFlags.ofLevel 0) (Mhd.Gen.Discipline.unesc_strict 0) 1500
+        ((rlScanner (RLFlags.ofLevel 0)).feedAll ((rlScanner (RLFlags.ofLevel 0)).run (RL.init #[] 0))
+          [#[10, 71, 69, 84, 9, 47, 97, 37, 50], #[48, 98, 63, 120, 61, 43, 49, 9, 72, 84, 84, 80, 47, 49, 46, 48, 10]]) with
+     | .ok T => (sliceBytes T.buf ⟨0, T.url, T.urlLen⟩, T.elems.map (HSP.elemView T.buf), T.rb) ==
+         ([47, 97, 32, 98], [(Mhd.Gen.Http.kindGetArgument, [120], some [32, 49])], 26)
+     | _ => false) = true := by decide +kernel
+
+/-- `get_request_line_no_fault` on garbage: NULs, stray '%', lone CR, many '?' (level -3 keeps bare CR) -/
+example : ∀ lvl ∈ [(-3 : Int), 0, 3],
+    (match getRequestLineOuter (RLFlags.ofLevel lvl) (Mhd.Gen.Discipline.unesc_strict lvl) 1500
+        ((rlScanner (RLFlags.ofLevel lvl)).feedAll ((rlScanner (RLFlags.ofLevel lvl)).run (RL.init #[] 0))
+          [#[71, 32, 63, 37, 63, 13, 37, 52, 32, 32], #[72, 84, 84, 80, 47, 49, 46, 49, 13, 10]]) with
+     | .fault _ => false
+     | _ => true) = true := by decide +kernel
+
+/-- the hypothesis of `cookie_no_fault` for a header list with one `Cookie` field whose value
+    `a="b c" ;;x` is not a valid cookie string at any level: no fault, result `malformed` at level 1 -/
+example :
+    (match parseCookieHeader (CKFlags.ofLevel 1)
+        #[67, 111, 111, 107, 105, 101, 0, 97, 61, 34, 98, 32, 99, 34, 32, 59, 59, 120, 0]
+        [⟨Mhd.Gen.Http.kindHeader, ⟨0, 0, 6⟩, some ⟨0, 7, 11⟩⟩] with
+     | .ok c => c.res == CKRes.malformed
+     | .error _ => false) = true := by decide +kernel
+
+/-- valid cookies: `a=b`, `c=""` (empty quoted value), `de="f g"`‑like values are excluded (space), `de="fg"` -/
+example : ∀ c ∈ [CK.CookieSpec.mk [97] [98] false, ⟨[99], [], true⟩, ⟨[100, 101], [102, 103], true⟩], c.Valid := by
+  unfold CK.CookieSpec.Valid; decide
+
+example : CK.render [⟨[97], [98], false⟩, ⟨[99], [], true⟩, ⟨[100, 101], [102, 103], true⟩] =
+    [97, 61, 98, 59, 32, 99, 61, 34, 34, 59, 32, 100, 101, 61, 34, 102, 103, 34] := by decide
+
+/-- `every_target_has_rendering` on a path and arguments with NUL, '&', '=', '%' bytes -/
+example : ∃ R : TGT.TargetR, R.ok = true ∧ R.semPath = [47, 0, 63, 37] ∧ R.semArgs = [([38, 61], some [0]), ([], none)] :=
+  every_target_has_rendering _ (by decide) _
+
+/-- the rendering side conditions of `reqline_target_roundtrip_all_levels_partial` at level −3: VT and FF
+    are separators, any number of empty lines may precede -/
+example : rlIsWsp (RLFlags.ofLevel (-3)) cVT = true ∧ rlIsWsp (RLFlags.ofLevel (-3)) cFF = true ∧
+    RLP.SkipOK (RLFlags.ofLevel (-3)) 100000 ∧ RLP.LineEnd (RLFlags.ofLevel (-3)) [cLF] := by decide
+
+/-- evaluated at level −2: "\r\n\nGET \t/a%2Fb?k\x0b HTTP/1.1\n" -/
+example :
+    (match getRequestLineOuter (RLFlags.ofLevel (-2)) (Mhd.Gen.Discipline.unesc_strict (-2)) 1500
+        ((rlScanner (RLFlags.ofLevel (-2))).feedAll ((rlScanner (RLFlags.ofLevel (-2))).run (RL.init #[] 0))
+          [#[13, 10, 10, 71, 69, 84, 32, 9, 47, 97, 37, 50, 70, 98, 63, 107, 11, 32, 72, 84, 84, 80, 47], #[49, 46, 49, 10]]) with
+     | .ok T => (sliceBytes T.buf ⟨0, T.url, T.urlLen⟩, T.elems.map (HSP.elemView T.buf), T.rb) ==
+         ([47, 97, 47, 98], [(Mhd.Gen.Http.kindGetArgument, [107], none)], 27)
+     | _ => false) = true := by decide +kernel
+
+/-- look-up on `Accept-Encoding: gz`, `accept: t` (buffer "Accept-Encoding\0gz\0accept\0t\0"): the key `Accept`
+    finds the second element (value at 26), the keys `Accep` and `Acceptx` find nothing -/
+example :
+    let buf : Bytes := #[65, 99, 99, 101, 112, 116, 45, 69, 110, 99, 111, 100, 105, 110, 103, 0, 103, 122, 0, 97, 99, 99, 101, 112, 116, 0, 116, 0]
+    let els : List Elem := [⟨1, ⟨0, 0, 15⟩, some ⟨0, 16, 2⟩⟩, ⟨1, ⟨0, 19, 6⟩, some ⟨0, 26, 1⟩⟩]
+    (lookupElem buf els 1 [65, 99, 99, 101, 112, 116]).map (·.value) = some (some ⟨0, 26, 1⟩) ∧
+    lookupElem buf els 1 [65, 99, 99, 101, 112] = none ∧ lookupElem buf els 1 [65, 99, 99, 101, 112, 116, 120] = none := by
+  decide
 
 end Mhd.C02
